@@ -383,17 +383,15 @@ def cmdSparseOps (a : Args) : String :=
     else if op == "D" then (s, saved, out ++ ["dn"], true)
     else if op == "U" then (s, saved, out ++ ["up"], false)
     else if op.startsWith "O" && op.endsWith "m" then
-      -- a start that fails because its state-init file is missing: by then a state file that is not used has
-      -- been replaced by the blank state and the cache file has been brought to full size
+      -- a start that fails because its state-init file is missing: the file is read first, before anything is
+      -- touched, so the state file and the cache file stay as they were found
       let k := ((((op.drop 1).toString).takeWhile Char.isDigit).toString).toNat?.getD 0
       let file := if k == 2 then [] else if k == 3 then s.file.take (s.file.length / 2) else s.file
       let accepted := match saved with
         | some st => decide (file.length = len) && decide (st.length = chunks.length)
         | none => false
       if accepted then (s, saved, out ++ ["unexpected-open"], down)   -- the saved state is used: no pre-load, the start succeeds
-      else
-        let s' := SparseSt.open fetch chunks nullID len file none none s.calls
-        (s', some (List.replicate chunks.length false), out ++ ["open-failed"], down)
+      else ({ s with file := file }, saved, out ++ ["open-failed"], down)
     else if op.startsWith "O" then
       let withInit := op.endsWith "i"
       let k := ((((op.drop 1).toString).takeWhile Char.isDigit).toString).toNat?.getD 0
@@ -403,10 +401,9 @@ def cmdSparseOps (a : Args) : String :=
       let accepted := match state with
         | some st => decide (file.length = len) && decide (st.length = chunks.length)
         | none => false
-      -- "i": the state-init file is a copy of the state file as it was before this start; "j": it is the state-save
-      -- file itself, which a re-initialised sparse file has blanked by the time it reads it
-      let sameFile := op.endsWith "j"
-      let init := if withInit then saved else if sameFile then some (List.replicate chunks.length false) else none
+      -- "i": the state-init file is a copy of the state file; "j": it is the state-save file itself (it is read before
+      -- the state file is blanked, so both pre-load from what was saved)
+      let init := if withInit || op.endsWith "j" then saved else none
       let s' := SparseSt.open fetch chunks nullID len file state init s.calls
       -- the pre-load runs in the background; `WriteState` at the end of `NewSparseFile` may see none of it yet
       let saved' := if accepted then saved else some (List.replicate chunks.length false)
